@@ -364,8 +364,11 @@ CycleWhole ==
 (*           taken                                                         *)
 (* cact.both argument insert_both (1/0), NoVal if not taken                *)
 (* cact.st   argument std_dev / bound of Normal-/UniformMutation: index in  *)
-(*           the strength ladder 0.125, 0.5, 2, 8 (1..4), 9 = NaN          *)
-(*           (invalid); 0 for the components without a strength            *)
+(*           the strength ladder 0, f64::MIN_POSITIVE, 1e-300, 0.125, 0.5, *)
+(*           2, 8, 1e300, 1e308, f64::MAX (1..10: every non-negative       *)
+(*           finite value is a documented deviation / bound, exactly 0,    *)
+(*           the tiniest and the hugest included), 90 = NaN (invalid);     *)
+(*           0 for the components without a strength                       *)
 (* cact.sibs further instances of the same component under OTHER           *)
 (*           identifiers, initialised in the same state:                   *)
 (*           sequence of [id, pr, st]                                      *)
@@ -392,13 +395,15 @@ CycleWhole ==
 (*           std_dev / bound, num_swap / n / y>> (0 where the component    *)
 (*           has no such field); <<>> if no instance was built             *)
 (* cres.mag  UniformMutation: per coordinate the least ladder index k with *)
-(*           |new - old| <= ladder[k] (0 = bit-identical, 5 = beyond the   *)
-(*           ladder); <<>> for every other component                       *)
+(*           |new - old| <= ladder[k] (0 = bit-identical, StTop + 1 =      *)
+(*           beyond the ladder); <<>> for every other component            *)
 (*                                                                         *)
 (* Projections.  Integer encodings (bits, permutations, labelled genes)    *)
 (* are logged as they are.  Real mutations: pin[j] = zeros, out[j][c] =    *)
 (* 0 bit-identical / 1 changed and the component's range predicate holds / *)
-(* 2 changed and it fails (Normal-, UniformMutation: finite;               *)
+(* 2 changed and it fails (Normal-, UniformMutation: finite - except for   *)
+(* a NormalMutation whose deviation is so huge (ladder index >= StOver)    *)
+(* that deviation times a normal deviate overflows by plain arithmetic;    *)
 (* PartialRandomSpread: inside the domain).  ArithmeticCrossover, DEMutation: pin[j] is     *)
 (* filled with the tag of individual j (j, or the least index of a         *)
 (* bit-identical individual), out[o] with the tag of the bit-identical     *)
@@ -420,8 +425,9 @@ Comps   == RealMut \cup BitMut \cup PermMut \cup Cross \cup DEX \cup {"DEMutatio
 IdComps  == RealMut \cup BitMut \cup {"ScrambleMutation"}    \* struct<I: Identifier>, state keyed by Self
 StrComps == {"NormalMutation", "UniformMutation"}           \* ... with a MutationStrength<Self>
 IdSeq    == <<"Global", "A", "B">>
-StTop    == 4                                                \* valid strengths: ladder indices 1..StTop
-StBad    == 9
+StTop    == 10                                               \* valid strengths: ladder indices 1..StTop
+StOver   == 9                                                \* deviations >= 1e308: N(0, s) is not finite
+StBad    == 90
 
 (* Every public constructor of every component (the code's `impl` blocks). *)
 Ctors(c) ==
@@ -610,7 +616,8 @@ CompRelE(a, r) ==
     CASE a.c \in RealMut ->
             \* documented: Err iff the MutationRate or MutationStrength holds an invalid value
             IF a.pr = 3 \/ a.st = StBad THEN r.k = "err"
-            ELSE /\ Fine(a, r) /\ SameShape(r.out, a.pin) /\ AllIn(r.out, {0, 1})
+            ELSE /\ Fine(a, r) /\ SameShape(r.out, a.pin)
+                 /\ AllIn(r.out, IF a.c = "NormalMutation" /\ a.st >= StOver THEN {0, 1, 2} ELSE {0, 1})
                  /\ a.pr = 0 => AllIn(r.out, {0})
                  /\ IF a.c = "UniformMutation" THEN MagOK(a, r) ELSE r.mag = <<>>
       [] a.c = "BitFlipMutation" ->
